@@ -90,11 +90,48 @@ type verifCounter struct {
 	method []string
 }
 
-var verifLastMetricAttrs []attribute.KeyValue
+// A measurement option that remembers the attributes it was built from. It embeds
+// the interface so that it satisfies it (the interface's methods are unexported);
+// the recorders below read the attributes of the option they are actually handed —
+// an option built once and reused is seen as exactly that.
+type verifOpt struct {
+	metric.MeasurementOption
+	attrs []attribute.KeyValue
+}
 
 func verifWithAttributes(attributes ...attribute.KeyValue) metric.MeasurementOption {
-	verifLastMetricAttrs = attributes
-	return nil
+	return &verifOpt{attrs: append([]attribute.KeyValue(nil), attributes...)}
+}
+
+// attribute.NewSet / metric.WithAttributeSet, the other way to build the option:
+// the set is a handle into a table of what it was built from
+var verifSets [][]attribute.KeyValue
+
+func verifNewSet(kvs ...attribute.KeyValue) attribute.Set {
+	verifSets = append(verifSets, append([]attribute.KeyValue(nil), kvs...))
+	var s attribute.Set
+	verifSetField(&s, "hash", uint64(len(verifSets)))
+	return s
+}
+func verifWithAttributeSet(set attribute.Set) metric.MeasurementOption {
+	for i := range verifSets {
+		var probe attribute.Set
+		verifSetField(&probe, "hash", uint64(i+1))
+		if probe.Equivalent() == set.Equivalent() {
+			return &verifOpt{attrs: verifSets[i]}
+		}
+	}
+	return &verifOpt{}
+}
+
+func verifOptAttrs(n int, get func(i int) interface{}) []attribute.KeyValue {
+	var out []attribute.KeyValue
+	for i := 0; i < n; i++ {
+		if o, ok := get(i).(*verifOpt); ok {
+			out = append(out, o.attrs...)
+		}
+	}
+	return out
 }
 
 func verifAttr(kvs []attribute.KeyValue, key string) (string, int) {
@@ -110,8 +147,9 @@ func verifAttr(kvs []attribute.KeyValue, key string) (string, int) {
 
 func (c *verifCounter) Add(ctx context.Context, incr int64, options ...metric.AddOption) {
 	c.adds = append(c.adds, incr)
-	st, _ := verifAttr(verifLastMetricAttrs, "status")
-	m, _ := verifAttr(verifLastMetricAttrs, "rpc.method")
+	attrs := verifOptAttrs(len(options), func(i int) interface{} { return options[i] })
+	st, _ := verifAttr(attrs, "status")
+	m, _ := verifAttr(attrs, "rpc.method")
 	c.status, c.method = append(c.status, st), append(c.method, m)
 }
 func (c *verifCounter) Enabled(ctx context.Context) bool { return true }
@@ -124,7 +162,8 @@ type verifHistogram struct {
 
 func (h *verifHistogram) Record(ctx context.Context, incr float64, options ...metric.RecordOption) {
 	h.records++
-	st, _ := verifAttr(verifLastMetricAttrs, "status")
+	attrs := verifOptAttrs(len(options), func(i int) interface{} { return options[i] })
+	st, _ := verifAttr(attrs, "status")
 	h.status = append(h.status, st)
 }
 func (h *verifHistogram) Enabled(ctx context.Context) bool { return true }
@@ -139,10 +178,12 @@ func verifAttrInt64(k string, v int64) attribute.KeyValue {
 // parented on the caller's traceparent, and every dispatch is counted once.
 //
 //verif:stub go.opentelemetry.io/otel/metric.WithAttributes = verifWithAttributes
+//verif:stub go.opentelemetry.io/otel/metric.WithAttributeSet = verifWithAttributeSet
+//verif:stub go.opentelemetry.io/otel/attribute.NewSet = verifNewSet
 //verif:stub go.opentelemetry.io/otel/attribute.Int64 = verifAttrInt64
 //verif:stub time.Now = verifNow
 //verif:stub time.Since = verifSince
-//verif:bound histories of 1..2 (thorough: 1..3) dispatches through one hook: tracing on/off, metrics on/off, RecordExceptions on/off, the tracer's spans recording or not; per dispatch: transport metadata absent, without trace headers, with traceparent, or with traceparent+tracestate (values ANY 2-byte / 1-byte strings); the call succeeds, fails with a plain error, or fails with an *RpcError; statistics present or nil and request id present or not (per history); dispatches run one after the other or nested (start, start, end, end). Tracer, span, counter, histogram and propagator are in-memory recorders with the OpenTelemetry interfaces; attribute sets are recorded as given
+//verif:bound histories of 1..2 (thorough: 1..3) dispatches through one hook: tracing on/off, metrics on/off, RecordExceptions on/off, the tracer's spans recording or not; per dispatch: method alpha or beta (so the same method recurs with different outcomes), transport metadata absent, without trace headers, with traceparent, or with traceparent+tracestate (values ANY 2-byte / 1-byte strings); the call succeeds, fails with a plain error, or fails with an *RpcError; statistics present or nil and request id present or not (per history); dispatches run one after the other or nested (start, start, end, end). Tracer, span, counter, histogram and propagator are in-memory recorders with the OpenTelemetry interfaces; attribute sets are recorded as given
 func verifH_C43_span_and_metric_per_dispatch() {
 	tracer := &verifTracer{recording: verifNondetBool("spans_recording")}
 	prop := &verifPropagator{}
@@ -173,7 +214,7 @@ func verifH_C43_span_and_metric_per_dispatch() {
 	withRID, withStats := verifNondetBool("request_id"), verifNondetBool("stats")
 	for i := range calls {
 		c := &call{span: -1}
-		c.info = vgirpc.DispatchInfo{Method: []string{"alpha", "beta", "gamma"}[i], MethodType: "unary", ServerID: "srv"}
+		c.info = vgirpc.DispatchInfo{Method: []string{"alpha", "beta"}[verifChoice("method", 2)], MethodType: "unary", ServerID: "srv"}
 		if withRID {
 			c.info.RequestID = "rid"
 		}
@@ -316,6 +357,8 @@ func verifH_C43_span_and_metric_per_dispatch() {
 // A token that is not the hook's own is ignored.
 //
 //verif:stub go.opentelemetry.io/otel/metric.WithAttributes = verifWithAttributes
+//verif:stub go.opentelemetry.io/otel/metric.WithAttributeSet = verifWithAttributeSet
+//verif:stub go.opentelemetry.io/otel/attribute.NewSet = verifNewSet
 //verif:stub time.Now = verifNow
 //verif:stub time.Since = verifSince
 //verif:bound OnDispatchEnd with a nil or foreign token
